@@ -1,6 +1,8 @@
 (* C01 - Supervisor: exactly-once, reverse-order, sequential Stop on every shutdown path.
    Statements only.  All statements quantify over every configuration (any number of runnables,
-   any capability mix, both Stop styles, any Run-exit behaviour) and every schedule. *)
+   any capability mix, both Stop styles, any Run-exit behaviour) and every schedule - including the
+   schedules in which Shutdown() is called BEFORE Run() (Run() is an action of the environment:
+   LRunEnter / LRunEntered; the initial state has no Run() goroutine). *)
 From Coq Require Import List Bool Arith.
 From GS Require Import LTS Supervisor SupAccept SupProps SupInv SupStop SupTrig SupGate SupOnce.
 Import ListNotations.
@@ -12,46 +14,125 @@ Theorem C01_order : forall c ls s,
   run (step c) (init c) ls = Some s -> c01_order c (obs_trace obs ls) = true.
 Proof. exact sup_c01_order. Qed.
 
-(* No Stop() is issued before shutdown starts: every StopCall is preceded by a trigger event
-   (unless the start-up deadline, which leaves no event, can fire). *)
+(* No Stop() is issued before shutdown starts.  A shutdown starts only with a cause; `is_trigger c` are the
+   events that are one: a Shutdown() call, an INT/TERM SendSignal call, cancellation of the parent context, a
+   trigger offered by a runnable that IS a ShutdownSender, a runnable's Run returning a non-cancellation error
+   (no other API call, no trigger of a non-ShutdownSender).  The only cause without an event is the start-up
+   deadline firing: in the model it sets the ghost flag su_fired (C01_su_fired says what the flag means).
+   MODEL FORM - for EVERY configuration (also when the start-up deadline can fire: realistic configurations),
+   every schedule on which the deadline has not fired: every StopCall is preceded by a trigger event. *)
 Theorem C01_not_before : forall c ls s,
+  run (step c) (init c) ls = Some s -> su_fired (aux s) = false ->
+  c01_not_before_strict c (obs_trace obs ls) = true.
+Proof. exact sup_c01_not_before_model. Qed.
+
+(* the flag: set only by the step LGateTimeout (by definition of step), never cleared; when it is set the
+   deadline can fire in this configuration and Run() has fixed the start-up timeout error as its result *)
+Theorem C01_su_fired : forall c s,
+  reachable_sup c s -> su_fired (aux s) = true ->
+  startup_may_fire c = true /\ main_res (main s) = Some ResTimeout.
+Proof. exact InvSu_reachable. Qed.
+
+(* TRACE FORM (the monitor evaluated on the implementation's traces, which have no ghost flag): every StopCall
+   is preceded by a trigger event, or Run() returned the start-up timeout error, or it has not returned yet and
+   the deadline can fire. *)
+Theorem C01_not_before_trace : forall c ls s,
   run (step c) (init c) ls = Some s -> c01_not_before c (obs_trace obs ls) = true.
 Proof. exact sup_c01_not_before. Qed.
 
-(* Once Run() has returned, every runnable whose Run was invoked has been stopped exactly once. *)
+(* Once Run() has returned, every runnable whose Run was invoked has been stopped exactly once.
+   ("at most once on every registered runnable" is C01_order; when Shutdown() precedes Run(), Stop() is
+   called on runnables whose Run is never invoked - allowed by "at most once" - see C01_stop_range.) *)
 Theorem C01_exactly_once : forall c ls s,
   run (step c) (init c) ls = Some s -> c01_exactly_once c (obs_trace obs ls) = true.
 Proof. exact sup_c01_exactly_once. Qed.
 
 (* The supervisor does not cancel the runnables' contexts until every Stop() has returned: whenever
    its own cancel() has been called, the complete stop sequence Stop(k-1) .. Stop(0), with all
-   returns, over all k started runnables is already in the history. *)
+   returns, over the whole stop range k = stop_k c s (see C01_stop_range) is already in the history. *)
 Theorem C01_cancel_after : forall c s,
   reachable_sup c s -> own_cancel s = true ->
-  stop_evs (rev (hist s)) = canon_stops (launched s).
+  stop_evs (rev (hist s)) = canon_stops (stop_k c s).
 Proof. exact sup_c01_cancel_after. Qed.
 
-(* Only started runnables are stopped, and nothing is started once shutdown has begun (launch
-   gate, /repo commit 00876a0): the started runnables are always a prefix of the registration order. *)
+(* Nothing is started once shutdown has begun (launch gate, /repo commit 00876a0): the started runnables
+   are always a prefix of the registration order. *)
 Theorem C01_started_prefix : forall c s,
   reachable_sup c s -> is_prefix_k (rn s) (launched s).
 Proof. intros c s H. exact (ip_prefix _ _ (InvPre_reachable c s H)). Qed.
+
+(* Which runnables are stopped (stop_k c s = if sd_all (aux s) then nrun c else launched s; the ghost flag
+   sd_all is set exactly by the step that starts the shutdown while p.runEntered is still false):
+   - when Run() was entered before the launch gate was closed, ONLY what Run() has started is stopped;
+   - when Shutdown() closed the gate BEFORE Run() was entered, EVERY registered runnable is stopped
+     (supervisor.go Shutdown: stopCount = len(p.runnables)), and no runnable's Run is ever invoked. *)
+Theorem C01_stop_range : forall c s,
+  reachable_sup c s ->
+  (sd s <> SdNot -> run_entered (aux s) = false -> sd_all (aux s) = true) /\
+  (sd_all (aux s) = false -> stop_k c s = launched s) /\
+  (sd_all (aux s) = true -> stop_k c s = nrun c /\ launched s = 0) /\
+  (own_cancel s = true -> stop_evs (rev (hist s)) = canon_stops (stop_k c s)).
+Proof. exact sup_c01_stop_range. Qed.
 
 Print Assumptions C01_order.
 Print Assumptions C01_exactly_once.
 Print Assumptions C01_cancel_after.
 Print Assumptions C01_started_prefix.
+Print Assumptions C01_stop_range.
 Print Assumptions C01_not_before.
+Print Assumptions C01_su_fired.
+Print Assumptions C01_not_before_trace.
 
 Definition c01_cfg : config :=
   {| specs := [dflt_spec; dflt_spec]; startup_may_fire := false; shutdown_may_fire := false |}.
 Definition c01_sched : list label :=
-  [LLaunch 0; LRunCall 0; LLaunch 1; LRunCall 1; LCall 1 OpShutdown; LCallerGo 1;
+  [LRunEnter; LRunEntered; LLaunch 0; LRunCall 0; LLaunch 1; LRunCall 1; LCall 1 OpShutdown; LCallerGo 1;
    LStopCall 1; LStopRet 1; LStopCall 0; LStopRet 0; LSdCancel].
 Example C01_ex_schedule :
   exists s, run (step c01_cfg) (init c01_cfg) c01_sched = Some s /\
             stop_evs (obs_trace obs c01_sched) = canon_stops 2.
 Proof. eexists. split; vm_compute; reflexivity. Qed.
+(* C01_not_before is not vacuous for realistic configurations: here the start-up deadline CAN fire
+   (startup_may_fire = true), it has not, and Stops were issued - after the SIGTERM call *)
+Definition c01_su_cfg : config :=
+  {| specs := [ {| stateable := true; reloadable := false; rsender := false; ssender := false;
+                   stop_style := StopNonBlocking; run_exit := ExitOnSignal; held_sub := false |}; dflt_spec];
+     startup_may_fire := true; shutdown_may_fire := true |}.
+Definition c01_su_sched : list label :=
+  [LRunEnter; LRunEntered; LLaunch 0; LRunStore 0; LRunCall 0; LPoll 0 true; LGateDecide 0; LLaunch 1; LRunCall 1;
+   LCall 1 (OpSignal SigTerm); LSigPut 1; LReapSig; LMainShutdown; LStopCall 1; LStopRet 1; LStopCall 0].
+Example C01_ex_not_before_hypotheses :
+  exists s, run (step c01_su_cfg) (init c01_su_cfg) c01_su_sched = Some s /\ su_fired (aux s) = false /\
+            startup_may_fire c01_su_cfg = true /\ stop_evs (obs_trace obs c01_su_sched) = [EStopCall 1; EStopRet 1; EStopCall 0].
+Proof. eexists. split; [vm_compute; reflexivity|]. repeat split; vm_compute; reflexivity. Qed.
+(* the genuine excuse: the deadline fires at runnable 0's gate, Stop is called with no trigger event before *)
+Definition c01_su_fire : list label :=
+  [LRunEnter; LRunEntered; LLaunch 0; LRunStore 0; LRunCall 0; LPoll 0 false; LGateTimeout 0; LMainShutdown; LStopCall 0].
+Example C01_ex_startup_timeout_path :
+  exists s, run (step c01_su_cfg) (init c01_su_cfg) c01_su_fire = Some s /\ su_fired (aux s) = true /\
+            c01_not_before_strict c01_su_cfg (obs_trace obs c01_su_fire) = false /\
+            c01_not_before c01_su_cfg (obs_trace obs c01_su_fire) = true.
+Proof. eexists. split; [vm_compute; reflexivity|]. repeat split; vm_compute; reflexivity. Qed.
+(* the monitor is not blinded by startup_may_fire = true: a Stop without a trigger in a trace whose Run()
+   returned nil is rejected; so are "triggers" that are none *)
+Example C01_ex_not_before_rejects :
+  c01_not_before c01_su_cfg [ERunEnter; ERunCall 0; EStopCall 0; EStopRet 0; ERunReturn ResNil] = false /\
+  c01_not_before c01_su_cfg [ERunEnter; ERunCall 0; ETrigS 1; ECall 1 OpReloadAll; ECall 2 (OpSignal SigHup);
+                             ERunRet 0 None; EStopCall 0; EStopRet 0; ERunReturn ResNil] = false /\
+  c01_not_before c01_su_cfg [ERunEnter; ERunCall 0; ECall 1 OpShutdown; EStopCall 0; EStopRet 0; ERunReturn ResNil] = true.
+Proof. repeat split; vm_compute; reflexivity. Qed.
+
+(* Shutdown() before Run(): both registered runnables are stopped, in reverse order, once each, although no
+   Run is ever invoked; a later Run() starts nothing and returns nil *)
+Definition c01_first_sched : list label :=
+  [LCall 1 OpShutdown; LCallerGo 1; LStopCall 1; LStopRet 1; LStopCall 0; LStopRet 0; LSdCancel; LSdWgDone;
+   LRet 1 OpShutdown; LRunEnter; LRunEntered; LLaunch 0; LReapCtx; LMainShutdown; LMainReturn ResNil].
+Example C01_ex_shutdown_before_run :
+  exists s, run (step c01_cfg) (init c01_cfg) c01_first_sched = Some s /\
+            sd_all (aux s) = true /\ stop_k c01_cfg s = 2 /\ launched s = 0 /\
+            stop_evs (obs_trace obs c01_first_sched) = canon_stops 2 /\ main s = MReturned ResNil /\
+            c01_exactly_once c01_cfg (obs_trace obs c01_first_sched) = true.
+Proof. eexists. split; [vm_compute; reflexivity|]. repeat split; vm_compute; reflexivity. Qed.
 Example C01_ex_rejects_forward_order :
   c01_order c01_cfg [EStopCall 0; EStopRet 0; EStopCall 1; EStopRet 1] = false.
 Proof. vm_compute. reflexivity. Qed.
